@@ -95,3 +95,21 @@ package sideband
 //gvc:  ensures bound: 0 <= read && read <= len(b)
 //gvc:  ensures full: err == nil ==> read == len(b)
 //gvc:end
+
+// nextPackData (property C34: pack bytes and progress bytes are demultiplexed
+// exactly as written). One packet is scanned per call; a pack-data packet is
+// returned without its channel byte and nothing else; a progress packet's
+// payload is handed to Progress whole, at once and unchanged, in the call that
+// scanned it (helpers without a contract are inlined, so the rule follows the
+// payload into them).
+//gvc:func (*Demuxer).nextPackData
+//gvc:  props C34
+//gvc:  theory int
+//gvc:  opt coarse
+//gvc:  opt frame args
+//gvc:  opt inline
+//gvc:  results data err
+//gvc:  sink Write requires whole: calls("Bytes") == 1 && same_array(arg0, content) && off(arg0) == off(content) + 1 && len(arg0) == len(content) - 1
+//gvc:  ensures progress: calls("Bytes") == 1 && len(now(content)) >= 1 && now(content)[0] == 2 && d.Progress != nil ==> calls("Write") == 1
+//gvc:  ensures packdata: calls("Bytes") == 1 && len(now(content)) >= 1 && now(content)[0] == 1 ==> err == nil && same_array(data, now(content)) && off(data) == off(now(content)) + 1 && len(data) == len(now(content)) - 1
+//gvc:end
